@@ -4,6 +4,7 @@ import Faithful.Lib.CompactIndexBytes
 import Faithful.Ties.Basic
 import Faithful.Ties.CILookup
 import Faithful.Ties.CIOpen
+import Faithful.Properties.C04
 /-!
 C04 bridge: `lookupSpec` (what the translated `DB.Lookup` computes, `Ties/CILookup.lean`) is the model's byte-level
 reader `CI.lookupB` (the function `lookupB_encode`, `build_lookup`, `lookup_sound` of C04 are stated about), for value
@@ -325,4 +326,53 @@ theorem gen_open_lookup_on_encoded (hf : CI.HF) (xx : List UInt8 → UInt64) (eh
   refine ⟨_, hspec, ?_⟩
   exact gen_lookup_on_encoded hf xx eh ix ok hv key fuel i _ rfl rfl rfl rfl hb hbh heh hfu hi64
 
+/-- **C04 from the builder's inputs to the translated reader's answer**: whatever set of key/value pairs the (model)
+    builder accepts — any insertion order, any declared count, any metadata within the limits — translated `Open` on the
+    sealed file succeeds and translated `DB.Lookup` returns, with a nil error, exactly the value inserted with each key.
+    Hypotheses on the two hash functions only say that the translated code and the model use the same ones. -/
+theorem gen_build_open_lookup (hf : CI.HF) (xx : List UInt8 → UInt64) (eh : UInt32 → List UInt8 → UInt64)
+    (vs declared : Nat) (m : List (B.Bytes × B.Bytes)) (kvs : List CI.KV) (ix : CI.IndexA)
+    (h : CI.buildA hf vs declared m kvs = .ok ix) (hm : CI.MetaOk m) (hvs : vs ≤ 255 - Generated.hashSize)
+    (hnb : CI.numBucketsFor declared < 2 ^ 32) (hn : kvs.length < 2 ^ 32) (hval : ∀ kv ∈ kvs, kv.val.length = vs)
+    (kv : CI.KV) (hkv : kv ∈ kvs) (fuel i : Nat)
+    (hb : hf.bucket kv.key ix.numBuckets = some i)
+    (hbh : ciBucketHash xx fuel { ValueSize := UInt64.ofNat ix.valueSize, NumBuckets := UInt32.ofNat ix.numBuckets,
+                                  Metadata := C10.ofKvs ix.metaKVs } kv.key = .ok (UInt64.ofNat i))
+    (heh : ∀ n k, (eh n k).toNat = hf.entry64 n.toNat k) (hfu : 2 ^ 32 ≤ fuel) (hi64 : i < 2 ^ 64) :
+    ∃ db, ciOpen fuel (memRd (CI.encode ix)) = .ok (db, Go.Error.nil) ∧
+      ciDBLookup xx eh fuel db kv.key = .ok (kv.val, Go.Error.nil) := by
+  have ok := CI.encOk_of_build hf vs declared m kvs ix h hm hvs hnb hn
+  have hv := CI.valsOk_of_build hf vs declared m kvs ix h hval
+  obtain ⟨db, hopen, hrel⟩ := gen_open_lookup_on_encoded hf xx eh ix ok hv kv.key fuel i hb hbh heh hfu hi64
+  rw [_root_.C04.build_lookup hf vs declared m kvs ix h kv hkv] at hrel
+  exact ⟨db, hopen, hrel⟩
+
+/-! non-vacuity of `gen_build_open_lookup`: a toy pair of hash functions shared by model and translated code, one key with
+    a 9-byte value, one metadata pair, three buckets — every hypothesis is met and the translated reader returns the value -/
+def exHF : CI.HF := ⟨fun k n => if n = 0 then none else some (k.length % n), fun nonce k => (k.length * 7 + nonce) % 2 ^ 64⟩
+def exXX : List UInt8 → UInt64 := fun k => UInt64.ofNat k.length
+def exEH : UInt32 → List UInt8 → UInt64 := fun n k => UInt64.ofNat ((k.length * 7 + n.toNat) % 2 ^ 64)
+
+example : ∃ ix db, CI.buildA exHF 9 25000 [([1], [2, 3])] [⟨[4, 5], [1, 2, 3, 4, 5, 6, 7, 8, 9]⟩] = .ok ix ∧
+    ciOpen (2 ^ 32) (memRd (CI.encode ix)) = .ok (db, Go.Error.nil) ∧
+    ciDBLookup exXX exEH (2 ^ 32) db [4, 5] = .ok ([1, 2, 3, 4, 5, 6, 7, 8, 9], Go.Error.nil) := by
+  obtain ⟨ix, h⟩ := _root_.C04.build_singleton_ok exHF 9 25000 [([1], [2, 3])] ⟨[4, 5], [1, 2, 3, 4, 5, 6, 7, 8, 9]⟩
+    (by omega) (by omega) 2 (by decide) (by decide)
+  obtain ⟨f1, f2, f3, _⟩ := CI.buildA_ok exHF 9 25000 _ _ ix h
+  have hnb : ix.numBuckets = 3 := by rw [f2]; decide
+  have hm : CI.MetaOk [([1], [2, 3])] := by
+    refine ⟨by decide, ?_⟩
+    intro kv hkv
+    simp only [List.mem_cons, List.mem_nil_iff, or_false] at hkv
+    subst hkv; decide
+  have heh : ∀ n k, (exEH n k).toNat = exHF.entry64 n.toNat k := by
+    intro n k
+    show (UInt64.ofNat ((k.length * 7 + n.toNat) % 2 ^ 64)).toNat = (k.length * 7 + n.toNat) % 2 ^ 64
+    rw [UInt64.toNat_ofNat']
+    exact Nat.mod_mod _ _
+  obtain ⟨db, ho, hl⟩ := gen_build_open_lookup exHF exXX exEH 9 25000 _ _ ix h hm (by decide) (by decide) (by decide)
+    (by intro kv hkv; simp only [List.mem_cons, List.mem_nil_iff, or_false] at hkv; subst hkv; rfl)
+    ⟨[4, 5], [1, 2, 3, 4, 5, 6, 7, 8, 9]⟩ (by simp) (2 ^ 32) 2
+    (by rw [hnb]; rfl) (by rw [hnb, f1, f3]; rfl) heh (Nat.le_refl _) (by decide)
+  exact ⟨ix, db, h, ho, hl⟩
 end GoTies.CIModel
